@@ -130,12 +130,96 @@ def run_ap6(ctx, proof):
     return spkcommon.oracle_only(ctx, proof, cases, ap6_line, ap6_oracle, "ADD-PATH receive over MP_REACH/MP_UNREACH (IPv6 unicast): Loc-RIB = announced and not withdrawn (prefix, path-id) pairs")
 
 
+# ---- API routes flagged no-implicit-withdraw (outside the model: such routes are not replaced by a later one of the same source)
+NIW_PFX = ["10.1.0.0/24", "10.2.0.0/24", "10.3.0.0/16"]
+
+
+def gen_niw(rng):
+    """each prefix gets at most one flagged local route, later deleted by path or by UUID; peers announce / withdraw around it"""
+    ev, local, used = [], set(), set()
+    for _ in range(rng.choice([3, 6, 10])):
+        r = rng.random()
+        pf = rng.choice(NIW_PFX)
+        if r < 0.3 and pf not in used:
+            ev.append(("add", pf))
+            local.add(pf)
+            used.add(pf)
+        elif r < 0.55 and pf in local:
+            ev.append(("del", pf, rng.choice(["path", "uuid"])))
+            local.discard(pf)
+        elif r < 0.8:
+            ev.append(("ann", pf))
+        elif r < 0.9:
+            ev.append(("wd", pf))
+        else:
+            ev.append(("obs",))
+    ev.append(("obs",))
+    return {"events": ev}
+
+
+def niw_line(c):
+    steps = ["(up a)", "(up b)"]
+    for e in c["events"]:
+        if e[0] == "add":
+            steps.append("(apiadd (a %s 0 () - - 0 () - ()) niw)" % e[1])
+        elif e[0] == "del":
+            steps.append("(apidel (a %s 0 () - - 0 () - ())%s)" % (e[1], " uuid" if e[2] == "uuid" else ""))
+        elif e[0] == "ann":
+            steps.append("(upd a (a %s 0 (65001 65020) - - 0 () - ()))" % e[1])
+        elif e[0] == "wd":
+            steps.append("(upd a (w %s 0))" % e[1])
+        else:
+            steps.append("(obs)")
+    return "(sim (global 65000 1.1.1.1 sync watch) (peers (a 10.0.0.1 65001) (b 10.0.0.2 65002)) (steps %s))" % " ".join(steps)
+
+
+def niw_oracle(c, out):
+    r = simlib.split_output(out)
+    if r is None:
+        return ("harness-error", "the scenario did not complete: " + out[:300])
+    obs = r[0]
+    local, peer = set(), set()
+    i = 0
+    for e in c["events"]:
+        if e[0] == "add":
+            local.add(e[1])
+        elif e[0] == "del":
+            local.discard(e[1])
+        elif e[0] == "ann":
+            peer.add(e[1])
+        elif e[0] == "wd":
+            peer.discard(e[1])
+        else:
+            if i >= len(obs):
+                return ("harness-error", "missing observation")
+            o = obs[i]
+            i += 1
+            got_local = {pf for pf, ps in o["rib"].items() if any(p["src"] == "local" for p in ps)}
+            got_peer = {pf for pf, ps in o["rib"].items() if any(p["src"] == "10.0.0.1" for p in ps)}
+            if got_local != local:
+                return ("deleted-api-route-still-in-loc-rib" if got_local - local else "api-route-missing", "the Loc-RIB holds local routes for %s; injected and not deleted: %s" % (sorted(got_local), sorted(local)))
+            if got_peer != peer:
+                return ("loc-rib-content", "the Loc-RIB holds routes of the peer for %s; announced and not withdrawn: %s" % (sorted(got_peer), sorted(peer)))
+            want_b = local | peer
+            got_b = {k.split("#")[0] for k in o["peers"]["b"].get("view", {})}
+            if got_b != want_b:
+                return ("peer-view-after-api-delete", "peer b holds %s; the Loc-RIB has destinations %s" % (sorted(got_b), sorted(want_b)))
+            if "watch" in o and set(o["watch"]) != want_b:
+                return ("best-path-stream", "the replayed best-path stream holds %s; the Loc-RIB has destinations %s" % (sorted(o["watch"]), sorted(want_b)))
+    return None
+
+
+def run_niw(ctx, proof):
+    cases = [gen_niw(ctx.rng) for _ in range(ctx.scale(300, 3000))]
+    return spkcommon.oracle_only(ctx, proof, cases, niw_line, niw_oracle, "API routes flagged no-implicit-withdraw: injected, deleted by path / by UUID; Loc-RIB, peer view and best-path stream")
+
+
 def run(ctx):
     return spkcommon.run(ctx, "C02", oracle, "handleUpdate/propagateUpdate/dropAdjRIBIn/Calculate vs Speaker.Model.step",
                          ["the model has one path-id per source and IPv4 unicast only; ADD-PATH receive is exercised over IPv6 unicast (MP_REACH / MP_UNREACH) by an oracle-only scenario family; no import policy",
                           "table summaries (GetTable of the global table and of every Adj-RIB-In) and exact / longer / shorter lookups are compared with the content by the direct oracle at every observation; the best-path stream (WatchEvent with WatchBestPath) is consumed during every scenario and its replay is compared with the best path of every destination",
                           "events are applied one at a time (quiescent speaker between events)"],
-                         fields=("adjin", "counters", "rib"), extra=[run_ap6], watch=True)
+                         fields=("adjin", "counters", "rib"), extra=[run_ap6, run_niw], watch=True)
 
 
 def replay(ctx, path):
